@@ -139,6 +139,17 @@ pub fn sub(seed: u64) -> Program {
             _ => insert_at_random(&mut g, &mut threads[t], op),
         }
     }
+    // two direct subscribers registered one after the other by one client in mid-run (whatever
+    // the list is going through at that moment, they are called in that order from then on)
+    if g.rng.chance(25) {
+        let t = g.rng.range(1, nprod_threads as u64 - 1) as usize;
+        let pos = g.rng.below(threads[t].len() as u64 + 1) as usize;
+        for k in 0..2 {
+            subs.push(direct(false));
+            threads[t].insert(pos + k, Op::AddSub { store: 0, sub: subs.len() - 1, reg: regs });
+            regs += 1;
+        }
+    }
     // iterators with their own consumer threads
     let niter = if stalled_lossy { 0 } else { g.rng.below(3) as usize };
     let mut consumers = vec![];
@@ -460,9 +471,10 @@ pub fn build(seed: u64) -> Program {
             main.push(Op::Dispatch { store: 0, act: a0, via: Via::Impl });
             main.push(Op::Settle);
             if m.policy == Policy::Block {
-                // a producer thread bursts cap+2: exactly cap return, then it blocks
+                // a producer thread bursts 2*cap+2: exactly cap return, then it blocks; after each
+                // single step of the reducer exactly one more gets in
                 let mut ops = vec![];
-                for _ in 0..(cap.min(6) + 2) {
+                for _ in 0..(2 * cap.min(6) + 2) {
                     let a = simple(&mut g);
                     ops.push(Op::Dispatch { store: 0, act: a, via: Via::Disp });
                 }
@@ -470,6 +482,11 @@ pub fn build(seed: u64) -> Program {
                 main.push(Op::Start { thread: 1 });
                 main.push(Op::Settle);
                 main.push(Op::Snap { tag: 0 });
+                for k in 0..g.rng.range(0, 2) {
+                    main.push(Op::Open { gate: 0, n: 1 });
+                    main.push(Op::Settle);
+                    main.push(Op::Snap { tag: k as u32 + 1 });
+                }
                 main.push(Op::Open { gate: 0, n: 1_000_000 });
                 main.push(Op::Join { thread: 1 });
             } else {
@@ -479,6 +496,17 @@ pub fn build(seed: u64) -> Program {
                     main.push(Op::Dispatch { store: 0, act: a, via });
                 }
                 main.push(Op::Settle);
+                // sometimes a second round: let the reducer take one step, burst again
+                if g.rng.chance(50) {
+                    main.push(Op::Open { gate: 0, n: 1 });
+                    main.push(Op::Settle);
+                    for _ in 0..(cap.min(6) + g.rng.range(0, 2) as usize) {
+                        let a = simple(&mut g);
+                        let via = g.via();
+                        main.push(Op::Dispatch { store: 0, act: a, via });
+                    }
+                    main.push(Op::Settle);
+                }
                 main.push(Op::Open { gate: 0, n: 1_000_000 });
                 main.push(Op::Settle);
             }
@@ -563,6 +591,16 @@ pub fn two(seed: u64) -> Program {
     let victim = g.rng.below(2) as usize;
     let survivor = 1 - victim;
     let mut stopper = vec![if stores[victim].droppable { Op::DropStore { store: victim } } else { Op::Stop { store: victim } }];
+    // sometimes the victim is stopped from inside the other store: a task effect of one of the
+    // survivor's actions calls stop() on it from the survivor's pool thread
+    if g.rng.chance(25) {
+        let a = g.plain_act(&reds_of[survivor].clone(), 0);
+        let id = g.new_eff();
+        let r0 = reds_of[survivor][0];
+        g.acts.get_mut(&a).unwrap().red.entry(r0).or_default().eff = Some(EffSpec { id, kind: EffKind::StopOther { store: victim }, panic: false, gate: None, sleep_ms: 0 });
+        let via = g.via();
+        stopper[0] = Op::Dispatch { store: survivor, act: a, via };
+    }
     for _ in 0..g.rng.range(1, 3) {
         let a = g.plain_act(&reds_of[survivor].clone(), 0);
         let via = g.via();
